@@ -213,6 +213,23 @@ pub fn standard_roots(w: &World, s0: &Store, with_forged: bool) -> Vec<(String, 
     }
     roots.push(("R7".to_string(), mk(r7, false)));
 
+    // RE: a Token-2022 bank whose transfer fee is scheduled to drop: the mint's fee authority lowers the
+    // fee (effective two epochs later) and one epoch passes, so the current epoch still charges the old
+    // fee while the next one will charge a fifth of it
+    for (bi, bh) in w.banks.iter().enumerate() {
+        let Some((bps, max)) = w.mints.get(&bh.mint).and_then(|m| m.fee) else { continue };
+        if bps < 5 || bps >= 10_000 {
+            continue;
+        }
+        let mut re = r1.clone();
+        let ixf = spl_token_2022::extension::transfer_fee::instruction::set_transfer_fee(&spl_token_2022::id(), &bh.mint, &w.mint_auth, &[], bps / 5, max).unwrap();
+        let r = crate::svm::process_tx(&mut re, &crate::svm::Tx::one(crate::svm::Ix::from(ixf), &[w.mint_auth]));
+        assert!(r.ok(), "RE set_transfer_fee: {}", crate::svm::err_name(r.code()));
+        re.epoch += 1;
+        roots.push((format!("RE{bi}"), mk(re, false)));
+        break;
+    }
+
     if with_forged {
         // R4: forged fee buckets: fractional, >1, and larger than the vault
         let mut r4 = r1.clone();
